@@ -929,8 +929,8 @@ OBJECT (`propOf` injective). That is the situation of every orbit the library it
 propagator, Kepler / J2 / NonePropagator return copies of the bound orbit, and every point yielded by `KeplerNum._iter` gets a
 propagator copy of its own (`orb.as_orbit(self.copy())` inside the loop: read from the AST, `num_points_own_propagator_matches`).
 NOT safe (the generator follows the orbit bound LAST, `Witness/C08.lean: interleaved_shared_propagator_retargeted`): generators of
-DIFFERENT orbit objects holding the SAME propagator object — a propagator assigned to two orbits by the user, or the points
-returned by the Clohessy–Wiltshire propagator (known finding C08-cw-points-share-propagator). -/
+DIFFERENT orbit objects holding the SAME propagator object — a propagator assigned to two orbits by the user (the points returned
+by the Clohessy–Wiltshire propagator shared one before 31423a7; `cw_points_own_propagator_matches`). -/
 
 /-- every generator still runs on the propagator of its receiver, that propagator is bound to the receiver, and the dates it has
 left are a tail of the dates a fresh iteration of the receiver yields -/
@@ -1060,6 +1060,9 @@ theorem step_test_matches : ({ kind := .num, store := fun i _ => i, sameState :=
 
 /-- every point yielded by `KeplerNum._iter` gets a propagator copy of its own: `self.copy()` is evaluated inside the loop -/
 theorem num_points_own_propagator_matches : Generated.numPointsOwnPropagator = true := by decide
+
+/-- every state returned by `ClohessyWiltshire._propagate` gets a propagator copy of its own (`new.propagator = self.copy()`) -/
+theorem cw_points_own_propagator_matches : Generated.cwPointsOwnPropagator = true := by decide
 
 /-- `DateRange.__iter__` is a generator function and `DateRange` has no `__next__`: every consumer of a range object gets a
 cursor of its own (the model treats a `DateRange` as an immutable description) -/
